@@ -98,6 +98,16 @@ pub struct Events {
     pub final_r0_norm: i64,
     pub final_ct0_norm: i64,
     pub final_hint_weight: u64,
+    /// iterations rejected by exactly one comparison sitting exactly on its bound (every other test of that
+    /// iteration passes): an off-by-one in that comparison changes which candidate is emitted
+    pub lone_exact_z: u64,
+    pub lone_exact_r0: u64,
+    pub lone_exact_ct0_pos: u64, // ||c t0|| = gamma2 attained at +gamma2 (possibly also at -gamma2)
+    pub lone_exact_ct0_neg: u64, // ||c t0|| = gamma2 attained only at -gamma2
+    pub lone_exact_hint: u64,    // hint weight = omega + 1
+    /// accepted candidate sitting exactly one below a bound
+    pub accept_ct0_gamma2_minus_1: u64,
+    pub accept_hint_omega: u64,
 }
 
 thread_local! {
@@ -945,6 +955,19 @@ pub fn sign_internal_capped(
             .collect();
         let ct0n = inf_norm(&ct0);
         let weight: i64 = hint.iter().flat_map(|hp| hp.iter()).sum();
+        if ct0n == p.gamma2 && weight <= p.omega as i64 {
+            let at_pos = ct0.iter().any(|pl| pl.iter().any(|&x| mod_pm(x, Q) == p.gamma2));
+            ev(|e| if at_pos { e.lone_exact_ct0_pos += 1 } else { e.lone_exact_ct0_neg += 1 });
+        }
+        if ct0n < p.gamma2 && weight == p.omega as i64 + 1 {
+            ev(|e| e.lone_exact_hint += 1);
+        }
+        if ct0n == p.gamma2 - 1 && weight <= p.omega as i64 {
+            ev(|e| e.accept_ct0_gamma2_minus_1 += 1);
+        }
+        if ct0n < p.gamma2 && weight == p.omega as i64 {
+            ev(|e| e.accept_hint_omega += 1);
+        }
         if ct0n >= p.gamma2 || weight > p.omega as i64 {
             ev(|e| {
                 if ct0n >= p.gamma2 {
